@@ -1,3 +1,3 @@
-CONSTANTS MaxFeatures = 9 MinFeatures = 5
+CONSTANTS MaxFeatures = 9 MinFeatures = 5 Avoid = {"f_subpackage", "f_upper_file"}
 SPECIFICATION Spec
 INVARIANT Emit
